@@ -24,8 +24,10 @@ pub enum Op {
     Idle3s,
     /// the client drops its browse receiver(s) without telling the daemon
     DropBrowseRx,
+    /// accept_unsolicited(true): records are cached although no search asked for them
+    AcceptUnsolicited,
 }
-pub const OPS: [Op; 15] = [
+pub const OPS: [Op; 16] = [
     Op::Browse,
     Op::BrowseDropOld,
     Op::BrowseCache,
@@ -41,6 +43,7 @@ pub const OPS: [Op; 15] = [
     Op::DeliverAddr,
     Op::Idle3s,
     Op::DropBrowseRx,
+    Op::AcceptUnsolicited,
 ];
 
 const TY: &str = "_t._tcp.local.";
@@ -67,6 +70,7 @@ pub struct Run {
     no_browse_q_from: Option<(u64, usize)>,
     no_host_q_from: Option<(u64, usize)>,
     metrics_after_stop: Vec<(u64, HashMap<String, i64>, bool)>,
+    unsolicited: bool,
     down: bool,
     viols: Vec<Viol>,
     counters: Vec<(&'static str, u64)>,
@@ -302,13 +306,13 @@ impl Scenario for Scn {
         "search-start-stop-sequences".into()
     }
     fn rule(&self) -> String {
-        "all sequences over {browse, browse again dropping the old receiver, dropping the receiver without a new browse, browse_cache, stop_browse, resolve_hostname Foo.local. (no timeout / 1500 ms, mixed or lower case), stop_resolve_hostname in either case, shutdown, deliver PTR / full record set / address record, idle 3 s}, then silence for the horizon; states de-duplicated on daemon dump + channel bookkeeping".into()
+        "all sequences over {browse, browse again dropping the old receiver, dropping the receiver without a new browse, accept_unsolicited(true), browse_cache, stop_browse, resolve_hostname Foo.local. (no timeout / 1500 ms, mixed or lower case), stop_resolve_hostname in either case, shutdown, deliver PTR / full record set / address record, idle 3 s}, then silence for the horizon; states de-duplicated on daemon dump + channel bookkeeping".into()
     }
     fn setup(&self) -> Run {
         let mut w = World::one(lay_v4());
         w.ds[0].h.set_ip_check_interval(0).unwrap();
         w.poke(0);
-        Run { w, bchans: vec![], hchans: vec![], hist: vec![], no_browse_q_from: None, no_host_q_from: None, metrics_after_stop: vec![], down: false, viols: vec![], counters: vec![] }
+        Run { w, bchans: vec![], hchans: vec![], hist: vec![], no_browse_q_from: None, no_host_q_from: None, metrics_after_stop: vec![], unsolicited: false, down: false, viols: vec![], counters: vec![] }
     }
     fn menu(&self, run: &Run) -> Vec<String> {
         if run.down {
@@ -344,6 +348,11 @@ impl Scenario for Scn {
                 run.bchans.push(Chan { host: false, cache_only, created: now, timeout_at: None, ended: None, replaced: None, dropped: None });
                 run.w.poke(0);
             }
+            Op::AcceptUnsolicited => {
+                run.w.ds[0].h.accept_unsolicited(true).unwrap();
+                run.w.poke(0);
+                run.unsolicited = true;
+            }
             Op::DropBrowseRx => {
                 for ch in 0..run.bchans.len() {
                     if run.bchans[ch].dropped.is_none() {
@@ -354,6 +363,7 @@ impl Scenario for Scn {
             }
             Op::StopBrowse => {
                 run.w.ds[0].h.stop_browse(TY).unwrap();
+                let was_open = run.bchans.iter().any(|c| c.ended.is_none() && c.replaced.is_none());
                 if let Some(i) = (0..run.bchans.len()).rev().find(|&i| run.bchans[i].ended.is_none() && run.bchans[i].replaced.is_none()) {
                     run.bchans[i].ended = Some(now);
                     // the search is over for every earlier receiver of this type as well
@@ -364,9 +374,13 @@ impl Scenario for Scn {
                     }
                 }
                 run.w.poke(0);
-                if let Some(m) = run.w.metrics(0) {
-                    let resolver_open = Scn::cur_h(run, now).is_some();
-                    run.metrics_after_stop.push((now, m, resolver_open));
+                // (only when a browse was open: records kept because of accept_unsolicited were not
+                // cached for a browse, and a stop_browse without a browse stops nothing)
+                if was_open {
+                    if let Some(m) = run.w.metrics(0) {
+                        let resolver_open = Scn::cur_h(run, now).is_some();
+                        run.metrics_after_stop.push((now, m, resolver_open));
+                    }
                 }
             }
             Op::ResolveMixed | Op::ResolveLowerTimeout | Op::ResolveMixedTimeout => {
